@@ -1,3 +1,4 @@
+from common import guarded
 """C07  With fewer than five observations Quantile returns the exact sample quantile.  Engine RS."""
 import terms as tm
 from terms import T, INT, UINT, REAL, TRUE, FALSE, And, Not, Or, real, ite
@@ -79,6 +80,8 @@ def run(tier, seed):
         job.add(Harness("sort_floats_contract_%d" % k, "C07.lib.float_ord_sort.ascending_permutation[len=%d]" % k, "float_ord::sort as used by Quantile::{quantile,add}"))
     if SORT_LENS:
         pr.obs += job.run()
+    import rs_crosscheck
+    pr.obs += guarded("C07.engine.rs_crosscheck", lambda: rs_crosscheck.crosscheck("C07", ['Quantile']))
     meta = {
         "level": "proof",
         "checker_cmd": "./check C07 (rsx -> RS executor -> z3 QF_NRA/LRA)",
